@@ -40,6 +40,7 @@ class V:
     note: str = ""
     count: int = 1  # which occurrence (1-based); 0 = all
     extra: List[tuple] = field(default_factory=list)  # further (file, old, new) edits of the same variant (e.g. an import, a module-level table)
+    accept_undecided: bool = False  # a preserving variant on which "cannot speak" (exit 2) is the expected, honest answer
 
 
 def _ws(s: str) -> str:
@@ -638,7 +639,8 @@ def alias_self_attributes(text: str) -> str:
 
 
 def _judge(args):
-    vid, kind, prop, rules, src_root, edits_spec = args
+    vid, kind, prop, rules, src_root, edits_spec = args[:6]
+    accept_undecided = args[6] if len(args) > 6 else False
     from sa.check import run_property
 
     edits = []
@@ -711,6 +713,8 @@ def _judge(args):
     else:
         if rc == 0:
             return vid, prop, "silent", ""
+        if rc == 2 and accept_undecided:
+            return vid, prop, "undecided", "exit 2 (accepted for this variant)"
         lines = [l for l in out.splitlines() if l.startswith(("VIOLATED:", "ANALYSIS-ERROR"))]
         return vid, prop, "false-alarm", (lines[0][:300] if lines else f"exit {rc}")
 
@@ -777,7 +781,7 @@ def run(prop: str, seed: int, root: str, coverage_out: dict, jobs: int = 16, onl
     for v in vs:
         special = {"<unparse>": "unparse", "<rename-locals>": "rename", "<flip-comparisons>": "flip", "<invert-ifelse>": "invert", "<hoist-conditions>": "hoist", "<extract-helpers>": "extract", "<expand-augassign>": "augexp", "<len-as-condition>": "lencond", "<fstring-to-concat>": "fconcat", "<loops-to-all>": "toall", "<comprehension-to-loop>": "comploop", "<patch>": "patch", "<args-to-keywords>": "argkw", "<npsum-to-method>": "npsum", "<reword-messages>": "reword", "<alias-self-attributes>": "aliasattr"}.get(v.old)
         files = v.file.split(",") if special else [v.file]
-        tasks.append((v.vid, v.kind, prop, v.rules, root, [(f, v.old, v.new, v.count, special) for f in files] + [(f2, o2, n2, 1, None) for f2, o2, n2 in v.extra]))
+        tasks.append((v.vid, v.kind, prop, v.rules, root, [(f, v.old, v.new, v.count, special) for f in files] + [(f2, o2, n2, 1, None) for f2, o2, n2 in v.extra], v.accept_undecided))
     results = []
     seed_tasks = [(f"seed:{name}", prop, root, pp) for name, pp in seeded_for(prop)] if only is None else []
     if tasks or seed_tasks:
